@@ -184,4 +184,73 @@ def Rng.valAt (r : Rng α) (row col : Nat) : α :=
     r.inner.getD ((row - r.sr) * r.width + (col - r.sc)) default
   else default
 
+/-- the value carried by the *last* cell of `cells` that sits at position `(p, q)`, if any -/
+def lastAt (cells : List (Nat × Nat × α)) (p q : Nat) : Option α :=
+  (cells.reverse.find? (fun c => decide (c.1 = p ∧ c.2.1 = q))).map (·.2.2)
+
+/-! ### operation histories -/
+
+/-- one operation of the public API that constructs or mutates a `Range` -/
+inductive Op (α : Type) where
+  | new (sr sc er ec : Nat)
+  | empty
+  | fromSparse (cells : List (Nat × Nat × α))
+  | setValue (row col : Nat) (v : α)
+  | range (sr sc er ec : Nat)
+
+/-- apply one operation to the current range (constructors replace it) -/
+def step (r : Rng α) : Op α → Res (Rng α)
+  | .new sr sc er ec => new sr sc er ec
+  | .empty => .ok empty
+  | .fromSparse cells => fromSparse cells
+  | .setValue row col v => setValue r row col v
+  | .range sr sc er ec => range r sr sc er ec
+
+/-- run a history from a given range; stops at the first panic -/
+def runFrom (r : Rng α) : List (Op α) → Res (Rng α)
+  | [] => .ok r
+  | op :: ops =>
+    match step r op with
+    | .ok r' => runFrom r' ops
+    | .err e => .err e
+    | .panic s => .panic s
+    | .outOfFuel => .outOfFuel
+
+/-- run a history from `Range::empty()` -/
+def run (ops : List (Op α)) : Res (Rng α) := runFrom empty ops
+
+/-- `s ≤ e` componentwise and the element count (and both spans) fit `u32` -/
+def rectPre (sr sc er ec : Nat) : Prop :=
+  sr ≤ er ∧ sc ≤ ec ∧ er - sr + 1 < U32 ∧ ec - sc + 1 < U32 ∧ (er - sr + 1) * (ec - sc + 1) < U32
+
+/-- the documented precondition of `from_sparse` (cells sorted by row: every row lies between the
+    first's and the last's), all coordinates are `u32`, and the spans `+ 1` fit `u32` -/
+def sparsePre (cells : List (Nat × Nat × α)) : Prop :=
+  match cells with
+  | [] => True
+  | c0 :: _ =>
+    (∀ c ∈ cells, c0.1 ≤ c.1 ∧ c.1 ≤ (cells.getLast?.getD c0).1 ∧ c.1 < U32 ∧ c.2.1 < U32) ∧
+    (cells.getLast?.getD c0).1 - c0.1 + 1 < U32 ∧
+    (∀ c ∈ cells, ∀ c' ∈ cells, c'.2.1 - c.2.1 + 1 < U32)
+
+/-- the documented precondition of each operation relative to the current range -/
+def Pre (r : Rng α) : Op α → Prop
+  | .new sr sc er ec => rectPre sr sc er ec
+  | .empty => True
+  | .fromSparse cells => sparsePre cells
+  | .setValue row col _ =>
+    r.inner.length ≠ 0 ∧ r.sr ≤ row ∧ r.sc ≤ col ∧ row - r.sr + 1 < U32 ∧ col - r.sc + 1 < U32
+  | .range sr sc er ec => rectPre sr sc er ec
+
+instance (sr sc er ec : Nat) : Decidable (rectPre sr sc er ec) := by unfold rectPre; exact inferInstance
+instance (cells : List (Nat × Nat × α)) : Decidable (sparsePre cells) := by
+  unfold sparsePre; cases cells <;> exact inferInstance
+instance (r : Rng α) (op : Op α) : Decidable (Pre r op) := by
+  cases op <;> unfold Pre <;> exact inferInstance
+
+/-- every operation of the history meets its precondition in the state it is applied to -/
+def Safe (r : Rng α) : List (Op α) → Prop
+  | [] => True
+  | op :: ops => Pre r op ∧ ∀ r', step r op = .ok r' → Safe r' ops
+
 end Range
